@@ -146,6 +146,8 @@ Theorem receive_next_src_eq m cap mm r : receive_next_src m cap mm r = receive_n
 Proof. unfold receive_next_src, receive_next. cbv zeta. rewrite src_bc_rx_available_eq. cbn [bind].
   destruct (get64 mm (tail_idx cap) >? next_record r); [|reflexivity].
   rewrite src_bc_rx_do_validate_eq. apply bind_ext; intros v _.
+  (* W64: receive_next does not validate a second time (that is W64R, fixes/C08-receive-next-revalidate.diff) *)
+  change (revalidates W64) with false. cbv iota. cbn [bind]. cbv iota.
   rewrite src_bc_rx_record_offset_eq. cbn [bind]. rewrite src_bc_rx_next_record_eq.
   rewrite bind_assoc. apply bind_ext; intros a1 _. apply bind_ext; intros nr _.
   rewrite src_bc_rx_is_padding_eq. cbn [bind].
